@@ -84,6 +84,39 @@ def decideTest (null : List Val) (obs : Val) (α : Rat) : TestResult :=
   let cnt := null.countP (fun v => Val.ge v obs)
   { thr := thr, value := obs, pass := Val.gt obs thr, p := (cnt : Rat) / (n : Rat) }
 
+/-! ### the decision with its comparison operators as data (regenerated from the source by the
+translator, `harness/gen_tables.py: shuffle_shape`) -/
+
+/-- a NumPy comparison operator -/
+inductive Cmp | gt | ge | lt | le
+  deriving Repr, DecidableEq, Inhabited
+
+/-- `a <op> b` with IEEE semantics (every comparison with NaN is false) -/
+def Cmp.eval : Cmp → Val → Val → Bool
+  | .gt, a, b => Val.gt a b
+  | .ge, a, b => Val.ge a b
+  | .lt, a, b => Val.lt a b
+  | .le, a, b => Val.le a b
+
+/-- `"Pass": observed <passOp> threshold`, `"P_value": np.mean(null <pOp> observed)` -/
+structure DecisionShape where
+  passOp : Cmp
+  pOp    : Cmp
+  deriving Repr, DecidableEq, Inhabited
+
+/-- `decideTest` for any pair of comparison operators -/
+def decideTestG (sh : DecisionShape) (null : List Val) (obs : Val) (α : Rat) : TestResult :=
+  let n := null.length
+  let thr : Val :=
+    match null.mapM finOf with
+    | some qs => .fin (percentile qs α)
+    | none => .nan
+  let cnt := null.countP (fun v => sh.pOp.eval v obs)
+  { thr := thr, value := obs, pass := sh.passOp.eval obs thr, p := (cnt : Rat) / (n : Rat) }
+
+/-- the operators of the pinned (post-fix `dcc3217`) `shuffle_test`: strict verdict, non-strict count -/
+def codeShape : DecisionShape := { passOp := .gt, pOp := .ge }
+
 /-- abstract estimator: predictor column, target column, conditioning columns (`[]` = `None`) -/
 abbrev Est := Col → Col → List Col → Val
 
